@@ -86,6 +86,41 @@ Example c02_completed_run_example :
     proc t = ExitOk /\ fin t = DoneOk /\ dcur t = [(1, 0%Z); (2, 1%Z)]%Q.
 Proof. exact completed_example. Qed.
 
+(* "... delivered to the scheduler AND written to the results log": for every backend kind, every event
+   list and EVERY behaviour of the extra-results composer (comp k = its answer at call k, None allowed):
+   the log holds exactly one row per delivered result, in delivery order, the k-th row carrying the
+   composer's k-th answer (no extra columns for None) — so a gap-free in-order prefix is delivered iff
+   it is logged. *)
+Theorem c02_results_log_is_delivery :
+  forall bk comp evs st x rows n,
+  run bk init evs = (st, x) -> run_log bk comp init evs 0 [] = (rows, n) ->
+    map row_key rows = out st /\ length rows = n /\
+    map row_extra rows = map (fun k => ans_cols (comp k)) (seq 0 n).
+Proof. exact results_log_is_delivery. Qed.
+Print Assumptions c02_results_log_is_delivery.
+
+Example c02_results_log_example :
+  let evs := [ Start [(1, 0%Z); (2, 1%Z)]; W (Emit 0%nat 2%nat); Poll [0%nat] [] ]%Q in
+  let comp := fun k : nat => match k with O => None | _ => Some [7%Z] end in
+  exists st, run Generic init evs = (st, None) /\
+    out st = [(0%nat, 0%Z); (0%nat, 1%Z)] /\
+    fst (run_log Generic comp init evs 0 []) = [(0%nat, 0%Z, []); (0%nat, 1%Z, [7%Z])].
+Proof. exact log_example. Qed.
+
+(* the proviso of the generic theorems made explicit: pause_trial / stop_trial return only when the
+   worker is gone.  [zrun] additionally allows ZombieWrite events (the old process is still alive and
+   appends to std.out).  Without them zrun IS run (so every theorem above applies); with one after a
+   resume the property fails: the zombie's report is the first result of the resumed trial.  That
+   real workers are gone after pause_trial is checked by the driver's real-process stream (C02-P). *)
+Theorem c02_dead_worker_proviso :
+  (forall zs st, zombie_free zs -> zrun st zs = run Generic st (no_zombie zs)) /\
+  exists zs st t,
+    zrun init zs = (st, None) /\ nth_error (trials st) 0%nat = Some t /\
+    runs_of t = [ ([(1, 0%Z); (2, 1%Z); (3, 2%Z)], [(1, 0%Z)], Decided);
+                  ([(4, 100%Z)], [(2, 1%Z); (4, 100%Z)], Live) ]%Q.
+Proof. split; [exact zrun_zombie_free|exact zombie_witness]. Qed.
+Print Assumptions c02_dead_worker_proviso.
+
 (* the two reads of a poll (LocalBackend._all_trial_results: status first, std.out second; the worker
    may write and exit in between).  (1) A poll that shows the trial as completed carries every report
    of its run, whatever the worker did between the reads; (2) in the other order this is false;
